@@ -24,9 +24,16 @@ Import ListNotations.
 (* Hypotheses (all decidable, computed by the tie for every generated program; Macros/MacroModel.v):
      wf_macros rk HM M:  for every definition d of the table
        (1) wf_def_ids    its identifiers are not spelled like generated names (no prefix "__")  [and carry d's origin tag]
-       (2) wf_def_bound  every identifier of the body occurs in a binding position of the body (argument of a clause,
-                         pattern of let / if let / for, also in a condition attached to a clause): it is a "bound"
-                         identifier in the sense of MACROS.MD
+       (2) wf_def_bound  every identifier of the body is a "bound" identifier in the sense of MACROS.MD:
+                         - it occurs in a binding position of the body itself (argument of a clause, pattern of let / if let /
+                           for, also in a condition attached to a clause), or
+                         - it is bound THROUGH NESTED INVOCATIONS: it is the actual of a parameter that the invoked macro has in
+                           a binding position of its body, in this same sense, at any nesting depth (MacroModel.xbv_item) —
+                           `mid` in `macro two($x, $z) { hop!($x, mid), hop!(mid, $z) }` with `macro hop($a, $b) { e($a, $b) }`.
+                           No direct item of such a body binds `mid`; the renaming pass finds it only because the nested
+                           invocations are expanded BEFORE the variables of the body are renamed (the order of
+                           rule_expand_macro_invocations, mirrored by MacroModel.expand_item; c08_nested_binder_example and
+                           c08_early_renaming_variant_not_hygienic below; proof: Macros/MacroNested.v xbv_sound)
        (3) wf_def_rank   it invokes only macros of smaller rank rk (no recursion; any acyclic table has such a rank)
        (4) wf_head_def   the macros HM used in head position have no identifiers of their own and invoke only such macros
      wf_rule HM r:  the rule's identifiers are call-site identifiers not spelled like generated names, no `$p` in the rule,
@@ -84,15 +91,40 @@ Proof. intros M HM r HT HR HB. exact (recursive_error M HM HT r HR HB). Qed.
 Theorem c08_hygiene_refuted_generated_name : wf_macros (fun m => m) [] M_gen = true /\ not_hygienic M_gen r_gen.
 Proof. exact refuted_generated_name_collision. Qed.
 Theorem c08_hygiene_refuted_renamed_twice :
-  forallb wf_def_bound M_twice = true /\ forallb (wf_def_rank (fun m => m)) M_twice = true
+  forallb (wf_def_bound M_twice) M_twice = true /\ forallb (wf_def_rank (fun m => m)) M_twice = true
   /\ wf_rule [] r_twice = true /\ not_hygienic M_twice r_twice.
 Proof. exact refuted_renamed_twice. Qed.
-Theorem c08_hygiene_refuted_head_identifier : forallb (wf_def (fun m => m)) M_head = true /\ wf_rule [0] r_head = true /\ not_hygienic M_head r_head.
+Theorem c08_hygiene_refuted_head_identifier : forallb (wf_def (fun m => m) M_head) M_head = true /\ wf_rule [0] r_head = true /\ not_hygienic M_head r_head.
 Proof. exact refuted_head_identifier_captured. Qed.
 Theorem c08_hygiene_refuted_unbound_identifier :
   forallb wf_def_ids M_free = true /\ forallb (wf_def_rank (fun m => m)) M_free = true
   /\ forallb (wf_head_def []) M_free = true /\ wf_rule [] r_free = true /\ not_hygienic M_free r_free.
 Proof. exact refuted_unbound_identifier_captured. Qed.
+
+(* ---- macro locals bound only through nested invocations are inside the theorem.
+   The hypothesis admitted before ("a direct item of the body binds it", wf_def_bound_direct) implies the present one ... *)
+Theorem c08_bound_direct_weaker : forall M d, wf_def_bound_direct d = true -> wf_def_bound M d = true.
+Proof. exact bound_direct_weaker. Qed.
+(* ... strictly: on  macro hop($p0, $p1) { e0($p0, $p1) }  macro two($p0, $p1) { hop!($p0, mid), hop!(mid, $p1) }
+       d0(a, mid) <-- two!(a, b), two!(b, mid);
+   the former hypothesis fails, the hypotheses of c08_hygiene hold, and each invocation gets a `mid` of its own, distinct
+   from the call-site `mid` *)
+Example c08_nested_binder_example :
+  wf_macros (fun m => m) [] M_two = true /\ forallb wf_def_bound_direct M_two = false /\ wf_rule [] r_two = true
+  /\ expand_rule M_two r_two =
+      OK (mkRule [HClause 3 [TV (cs "a"); TV (cs "mid")]]
+                 [IClause 0 [TV (cs "a"); TV (VId (mkId "__mid_" (OMac 1) 0))] []; IClause 0 [TV (VId (mkId "__mid_" (OMac 1) 0)); TV (cs "b")] [];
+                  IClause 0 [TV (cs "b"); TV (VId (mkId "__mid_1" (OMac 1) 0))] []; IClause 0 [TV (VId (mkId "__mid_1" (OMac 1) 0)); TV (cs "mid")] []]).
+Proof. exact nested_binder_example. Qed.
+(* The order is essential.  [expand_rule_early] (Macros/MacroRefuted.v) is the expansion with the two steps of an invocation
+   swapped: the variables of the substituted body are renamed first — among items in which the nested invocations are still
+   opaque and bind nothing — and the nested invocations are expanded afterwards.  On the same table that variant is NOT
+   hygienic: `mid` keeps its spelling, both invocations share it and the call-site `mid` captures it.  (This is a statement
+   about a variant of the model, not about the code; the tie runs the two_hops family with designed inputs on every check.) *)
+Theorem c08_early_renaming_variant_not_hygienic :
+  wf_macros (fun m => m) [] M_two = true /\ wf_rule [] r_two = true
+  /\ exists r' h, expand_rule_early M_two r_two = OK r' /\ hexpand_rule M_two r_two = OK h /\ ~ exists phi, hygienic_image r' h phi.
+Proof. exact refuted_rename_before_nested_expansion. Qed.
 
 (* ---- the hypotheses are satisfiable on a non-trivial table: nested macros, one macro invoked twice in a rule and once more
    inside another macro, the spelling z used at the call site, in the outer and in the inner macro, an invocation inside a
@@ -118,3 +150,5 @@ Print Assumptions c08_hygiene_refuted_generated_name. Print Assumptions c08_atta
 Print Assumptions c08_hygiene_refuted_renamed_twice. Print Assumptions c08_hygiene_refuted_head_identifier.
 Print Assumptions c08_hygiene_refuted_unbound_identifier.
 Print Assumptions c08_hypotheses_satisfiable. Print Assumptions c08_recursive_example.
+Print Assumptions c08_bound_direct_weaker. Print Assumptions c08_nested_binder_example.
+Print Assumptions c08_early_renaming_variant_not_hygienic.
